@@ -9,6 +9,7 @@ sessions and the ``sol`` scribbles in between.  Oracle: exhaustive reference enu
 from __future__ import annotations
 
 import hashlib
+import random
 
 from sim import core, peers, refsem
 from sim.core import RunResult
@@ -278,7 +279,23 @@ def generate(rng, tier, index):
                 vals.append(v)
             ops.append({"s": s, "op": "ensure", "cs": cs, "nest": 1, "pin": True})
         ops.append({"s": s, "op": "find_answer"})
+    ops = add_fault(rng, ops)
     return {"prop": ID, "sessions": sessions, "ops": ops}
+
+
+def add_fault(rng, ops, p=0.1):
+    """Fault injection: in one session out of ten the solver behind the seam fails once, inside a
+    query that is followed by further queries (SimBackend: dies after a torn write of its result;
+    z3: check() answers unknown or raises; Sugar peer: dies without a reply)."""
+    r = random.Random(rng.random())  # one draw: the rest of the scenario stream is unchanged
+    if r.random() >= p:
+        return ops
+    at = [j for j, o in enumerate(ops[:-1]) if o["op"] in ("find_answer", "solve")]
+    if not at:
+        return ops
+    j = r.choice(at)
+    arm = {"s": ops[j].get("s", 0), "op": "arm_fault", "n": r.choice([1, 1, 1, 2, 3]), "torn": r.randint(0, 4), "kind": r.choice(["unknown", "exception"])}
+    return ops[:j] + [arm] + ops[j:]
 
 
 # --------------------------------------------------------------------------------------
@@ -350,6 +367,9 @@ def valid(sc):
                     keys[s].add(i)
             elif k == "scribble":
                 if not 0 <= op["id"] < len(decls[s]):
+                    return False
+            elif k == "arm_fault":
+                if op["n"] < 1 or op.get("torn", 0) < 0:
                     return False
             elif k not in ("find_answer", "solve"):
                 return False
@@ -555,7 +575,16 @@ def _run_ops(sc, res, sessions, ctx, z3cap):
         if last_s is not None and last_s != op["s"]:
             res.hit("perturb:interleave")
         last_s = op["s"]
+        fired0 = ctx.faults_fired + z3cap.get("faults_fired", 0)
         try:
+            if k == "arm_fault":
+                # the next query meets a failing solver (whichever seam its session talks to)
+                ctx.arm_fault(op["n"], op.get("torn", 0))
+                z3cap["fault_in"] = op["n"]
+                z3cap["fault_kind"] = op.get("kind", "unknown")
+                z3cap["result"] = res
+                res.log("op", n_op, "arm_fault", op["n"], op.get("torn", 0), op.get("kind"))
+                continue
             if k == "bool_var":
                 S.vars.append(S.solver.bool_var())
                 S.decls.append({"t": "b"})
@@ -610,6 +639,9 @@ def _run_ops(sc, res, sessions, ctx, z3cap):
                     except peers.NoReturnWithinBound:
                         r = None
                         res.hit("solve_between_did_not_return_within_bound")
+                    finally:
+                        ctx.disarm_fault()
+                        z3cap["fault_in"] = None
                 res.hit("perturb:solve_between")
                 res.log("op", n_op, "solve", r)
             elif k == "find_answer":
@@ -617,13 +649,25 @@ def _run_ops(sc, res, sessions, ctx, z3cap):
                 ctx.cap = 16
                 z3cap["calls"] = 0
                 z3cap["cap"] = 16
-                r = S.solver.find_answer(backend=S.backend)
+                try:
+                    r = S.solver.find_answer(backend=S.backend)
+                finally:
+                    ctx.disarm_fault()
+                    z3cap["fault_in"] = None
+                if ctx.faults_fired + z3cap.get("faults_fired", 0) > fired0:
+                    res.hit("fault:absorbed_query_returned")
                 _check_find_answer(res, S, r, n_op)
             else:
                 raise core.HarnessError(f"unknown op {k}")
         except core.HarnessError:
             raise
         except Exception as e:  # raised by the system under test during a legal operation
+            if ctx.faults_fired + z3cap.get("faults_fired", 0) > fired0:
+                # the injected failure reached the caller: nothing was claimed, nothing to check;
+                # the session goes on and every later query is checked as usual
+                res.hit("fault:failure_propagated_to_caller")
+                res.log("op", n_op, k, "failed-with-the-solver", type(e).__name__)
+                continue
             res.violate(
                 "C01/unexpected-exception",
                 f"op#{n_op} {k} on session {op['s']} ({sc['sessions'][op['s']]['backend']}) raised {type(e).__name__}: {str(e)[:200]}",
